@@ -17,8 +17,19 @@ from common import *
 import runner
 
 ID = "C12"
-LEAN_MODULES = ["Properties.C12"]
-THEOREMS = ["EngineModel.Properties.C12." + t for t in []]
+LEAN_MODULES = ["Properties.C12", "Properties.C13"]
+THEOREMS = ["EngineModel.Properties.C12." + t for t in [
+    # canon: lossless lexing, bijection onto well-formed lexeme lists, invariances, injective otherwise
+    "lex_lossless", "lex_wellformed", "lex_bijective", "canon_of_lexemes", "canon_def",
+    "canon_ws_insert", "canon_requote", "canon_quote_bare", "strip_none_iff", "strip_eq_iff",
+    "canon_eq_iff", "canon_string_eq_iff", "canon_render_canon", "canon_surjective",
+    # schemaEq: equivalence, characterisation, projections
+    "sameSet_iff", "schemaEq_iff", "schemaEq_refl", "schemaEq_symm", "schemaEq_trans", "schemaEq_equivalence",
+    "schemaEq_master", "schemaEq_sql", "schemaEq_columns", "schemaEq_indexes", "schemaEq_sizes",
+    "schemaEq_of_canon_eq", "schemaEq_detects"]] + [
+    # "carries the matching version numbers ... recognised on load as the version requested" (Properties/C13.lean, over the
+    # decision tree and the stamped constants regenerated from schema.cpp / schema_*.hpp on every run)
+    "EngineModel.Properties.C13.C13_stamp", "EngineModel.Properties.C13.C13_reload"]
 ASSUMPTIONS = [
     "SQLite's own storage of DDL text in sqlite_master and its PRAGMA table_info / index_list / index_info are "
     "trusted (the catalogs are read through the SQLite C API on the library's own connection / on a plain "
@@ -32,9 +43,42 @@ ASSUMPTIONS = [
     "comments and the quoting style of identifiers are forgotten (Spec/SqlCanon.lean, characterised by the lemmas "
     "of Properties/C12.lean)",
 ]
-MANIFEST = dict(text="", note="", technique="", ref="6/C12")
+MANIFEST = dict(
+    text="Finite decision, in the kernel and on the real code: every run the catalogs (sqlite_master, table_info, index_list/index_info) "
+         "of all 19 schemas created by the real code (temporary, on-disk, reloaded) and of the 57 hydrated reference dumps are read "
+         "through the SQLite C API and (1) emitted as Lean data (Gen/SchemaFacts.lean: 450 distinct DDL texts as explicit literals, "
+         "39 distinct catalogs, the (created, reference) pairs of equal version) over which Properties/C12Table.lean closes "
+         "C12_table : forall p in pairs, schemaEq created reference = true by decide +kernel (classes_checked lexes every text in the "
+         "kernel; table_checked compares on class indices; tableOk_sound lifts to schemaEq), with C12_table_counterexample for the one "
+         "recorded pair and texts_comment_free; lake rebuilds it only when the facts changed (seconds on an unchanged tree, minutes "
+         "after a change; beyond the tier's budget the evidence says kernel_table.status = skipped); (2) EVERY (created x form x "
+         "reference) pair is decided by the compiled schemaEq, with direct oracles for stamped version numbers, verify(), "
+         "reload-as-requested and temporary == on-disk == reloaded. Theorems of Properties/C12.lean say what the comparison means: "
+         "lossless lexer, bijection onto well-formed lexeme lists, canon invariant under whitespace/comment insertion and the three "
+         "quoting styles, injective otherwise (canon_eq_iff), schemaEq an equivalence holding exactly when the (db, type, name, "
+         "tbl_name, canon sql) sets, ordered table_info column lists and index descriptions agree. Version clause: C13_stamp, "
+         "C13_reload (over the decision tree and constants regenerated from schema.cpp each run).",
+    note="Trusted: Lean kernel; SQLite's storage of DDL text and its PRAGMAs; harness/djv_schema.cpp (catalog reader), the dump text form "
+         "and the fact emitter. canon identifies exactly: texts that differ in whitespace runs / comments between tokens (comments do "
+         "not occur in any compared text: texts_comment_free) and in the spelling - bare or quoted in any of the three styles - of a "
+         "word, wherever it occurs (so `DEFAULT [0]` and `DEFAULT 0` have equal canon; the table_info default texts, compared "
+         "literally, tell them apart); sameSet is mutual inclusion plus equal length. Schema 1.6.0 has no reference dump; schema "
+         "3.0.0 is compared but not claimed. One known finding: the three reference dumps of 1.18.0-desktop disagree in one trigger "
+         "name (ep-1.5.1).",
+    technique="Lean 4 executable Spec (lossless lexer + canon + schemaEq) with characterisation theorems; the finite table decided "
+              "by decide +kernel over facts regenerated from really created / hydrated libraries, and by the compiled Spec on every pair",
+    ref="6/C12")
 TRUSTED_EXTRA = ["harness/djv_schema.cpp (catalog reader over the SQLite C API) and the text form of a dump"]
 STATELESS = False
+
+
+def _translate_detect():
+    r = subprocess.run([sys.executable, os.path.join(VERIF, "tools", "tr_detect.py")],
+                       stdout=subprocess.PIPE, stderr=subprocess.PIPE, text=True)
+    return (r.stdout.strip() or r.stderr.strip()[-200:])
+
+
+TRANSLATORS = {"schema.cpp (detect_schema, schema_version constants)": _translate_detect}
 
 SCHEMAS = ["schema_1_6_0", "schema_1_7_1", "schema_1_9_1", "schema_1_11_1", "schema_1_13_0", "schema_1_13_1",
            "schema_1_13_2", "schema_1_15_0", "schema_1_17_0", "schema_1_18_0_desktop", "schema_1_18_0_os",
@@ -273,6 +317,190 @@ def decide(schemas, refs, outs, all_pairs=True):
             "samples": samples, "ref_schema": ref_schema, "dumps": dumps}
 
 
+# ------------------------------------------------------------------ thorough tier: the table inside the kernel
+FACTS = os.path.join(LEAN, "EngineModel", "Gen", "SchemaFacts.lean")
+# the kernel table is rebuilt only when the emitted facts changed (lake caches by content): on an unchanged tree it
+# costs seconds in either tier; after a change of a creator / reference dump it needs minutes of kernel time
+KERNEL_BUDGET_S = {"quick": int(os.environ.get("VERIF_C12_KERNEL_BUDGET_QUICK", "60")),
+                   "thorough": int(os.environ.get("VERIF_C12_KERNEL_BUDGET", "900"))}
+TABLE_THEOREMS = ["EngineModel.Properties.C12Table." + t for t in
+                  ("classes_checked", "table_checked", "C12_table", "C12_table_counterexample", "texts_comment_free")]
+
+
+def _unhex(t):
+    return b"" if t == "-" else bytes.fromhex(t)
+
+
+def parse_dump_text(text):
+    """the catalog text form of harness/djv_schema.cpp -> (master, tables, indexes) with byte strings"""
+    toks = text.split()
+    pos = [0]
+
+    def nxt():
+        pos[0] += 1
+        return toks[pos[0] - 1]
+
+    def ostr():
+        t = nxt()
+        return None if t == "none" else _unhex(t)
+    assert nxt() == "M"
+    M = [(nxt().encode(), nxt().encode(), _unhex(nxt()), _unhex(nxt()), ostr()) for _ in range(int(nxt()))]
+    assert nxt() == "T"
+    T = []
+    for _ in range(int(nxt())):
+        db, tb = nxt().encode(), _unhex(nxt())
+        T.append((db, tb, [(_unhex(nxt()), _unhex(nxt()), int(nxt()), ostr(), int(nxt())) for _ in range(int(nxt()))]))
+    assert nxt() == "X"
+    X = []
+    for _ in range(int(nxt())):
+        db, tb = nxt().encode(), _unhex(nxt())
+        idx = []
+        for _ in range(int(nxt())):
+            n, u, o, p_ = _unhex(nxt()), int(nxt()), _unhex(nxt()), int(nxt())
+            idx.append((n, u, o, p_, [(int(nxt()), ostr()) for _ in range(int(nxt()))]))
+        X.append((db, tb, idx))
+    assert pos[0] == len(toks)
+    return M, T, X
+
+
+def _int(n):
+    return str(n) if n >= 0 else "(%d)" % n
+
+
+class _Strs:
+    """every distinct byte string gets an index into the generated table `strs`"""
+    def __init__(self):
+        self.ix, self.tab = {}, []
+
+    def ns(self, b):
+        if b not in self.ix:
+            self.ix[b] = len(self.tab)
+            self.tab.append(b)
+        return str(self.ix[b])
+
+    def ons(self, b):
+        return "none" if b is None else "(some %s)" % self.ns(b)
+
+
+def emit_facts(dumps, pairs_named, excluded):
+    """dumps: id -> catalog text; pairs_named: [(created id, reference id)] that belong together and must be equal."""
+    parsed, order, index = {}, [], {}
+    for i, txt in dumps.items():
+        if txt not in index:
+            index[txt] = len(order)
+            order.append(i)
+            parsed[i] = parse_dump_text(txt)
+    did = {i: index[dumps[i]] for i in dumps}
+    texts, tindex = [], {}
+    for i in order:
+        for m in parsed[i][0]:
+            if m[4] is not None and m[4] not in tindex:
+                tindex[m[4]] = len(texts)
+                texts.append(m[4])
+    out = runner.run_model_script(["#mode schema", "canoncls " + " ".join(t.hex() or "-" for t in texts)])
+    if not out[1].startswith("ok"):
+        raise RuntimeError("canoncls: " + out[1][:200])
+    cls = [int(x) for x in out[1].split()[1:]]
+    assert len(cls) == len(texts)
+    S = _Strs()
+    body = []
+    for k, i in enumerate(order):
+        M, T, X = parsed[i]
+        body.append("/-- %s -/" % i)
+        body.append("def d%d : IDump := ⟨[" % k)
+        body.append(",\n".join("  ⟨%s,%s,%s,%s,%s⟩" % (S.ns(a), S.ns(b), S.ns(c), S.ns(d), "none" if e is None else "some %d" % tindex[e])
+                               for a, b, c, d, e in M) + "],\n [")
+        body.append(",\n".join("  ⟨%s,%s,[%s]⟩" % (S.ns(a), S.ns(b), ",".join(
+            "⟨%s,%s,%s,%s,%s⟩" % (S.ns(n), S.ns(ty), _int(nn), S.ons(dd), _int(pk)) for n, ty, nn, dd, pk in cols)) for a, b, cols in T) + "],\n [")
+        body.append(",\n".join("  ⟨%s,%s,[%s]⟩" % (S.ns(a), S.ns(b), ",".join(
+            "⟨%s,%s,%s,%s,[%s]⟩" % (S.ns(n), _int(u), S.ns(o), _int(p_), ",".join("⟨%s,%s⟩" % (_int(sq), S.ons(c)) for sq, c in cs))
+            for n, u, o, p_, cs in idx)) for a, b, idx in X) + "]⟩")
+    L = ["/- GENERATED by tools/props/C12.py (thorough tier) from the catalogs read back from the libraries the real code",
+         "created and from the hydrated reference scripts of /repo's working tree.  Do not edit. -/",
+         "import EngineModel.Spec.SchemaFactsCore", "import EngineModel.Spec.BytesLit", "namespace EngineModel.Gen.SchemaFacts",
+         "open EngineModel.Spec.SchemaFacts EngineModel.Spec.SchemaDump", "set_option maxRecDepth 1000000", "set_option maxHeartbeats 4000000", "",
+         "/-- the %d distinct DDL texts (%d bytes), each an explicit `List Char` literal written as hex (`bytes%%`) -/" % (len(texts), sum(len(t) for t in texts)),
+         "noncomputable def texts : List Str := ["]
+    L.append(",\n".join('  bytes% "' + t.hex() + '"' for t in texts) + "]")
+    L.append("def cls : List Nat := [%s]" % ",".join(str(c) for c in cls))
+    L.append("/-- the %d distinct names / declared types / defaults / labels; catalogs refer to them by index -/" % len(S.tab))
+    L.append("noncomputable def strs : List Str := [")
+    L.append(",\n".join('  bytes% "' + t.hex() + '"' for t in S.tab) + "]")
+    L += body
+    L.append("def dumps : List IDump := [%s]" % ", ".join("d%d" % k for k in range(len(order))))
+    prs = sorted({(did[a], did[b]) for a, b in pairs_named})
+    L.append("/-- (created catalog, reference catalog of the same schema version) -/")
+    L.append("def pairs : List (Nat × Nat) := [%s]" % ", ".join("(%d, %d)" % p for p in prs))
+    L.append("/-- which libraries each catalog index stands for -/")
+    names = {}
+    for i in dumps:
+        names.setdefault(did[i], []).append(i)
+    L.append("def names : List String := [%s]" % ", ".join('"%s"' % " = ".join(names[k]) for k in range(len(order))))
+    L.append("/-- pairs left out because they are recorded findings (they do differ: C12_table_counterexample) -/")
+    L.append("def excluded : List String := [%s]" % ", ".join('"%s ~ %s"' % e for e in excluded))
+    # for each excluded pair a witness: a sqlite_master row of the created catalog without counterpart in the reference
+    wit = set()
+    for a, b in excluded:
+        ma, mb = parsed[order[did[a]]][0], parsed[order[did[b]]][0]
+        keyb = {(r[0], r[1], r[2], r[3], None if r[4] is None else cls[tindex[r[4]]]) for r in mb}
+        for k, r in enumerate(ma):
+            if (r[0], r[1], r[2], r[3], None if r[4] is None else cls[tindex[r[4]]]) not in keyb:
+                wit.add((did[a], did[b], k))
+                break
+    L.append("/-- (created catalog, reference catalog, index of a sqlite_master row of the first without counterpart in the second) -/")
+    L.append("def excludedWitness : List (Nat × Nat × Nat) := [%s]" % ", ".join("(%d, %d, %d)" % w for w in sorted(wit)))
+    L.append("end EngineModel.Gen.SchemaFacts")
+    with open(FACTS, "w") as f:
+        f.write("\n".join(L) + "\n")
+    return {"texts": len(texts), "text_bytes": sum(len(t) for t in texts), "classes": len(set(cls)),
+            "catalogs": len(order), "pairs": len(prs), "excluded": len(excluded), "strings": len(S.tab)}
+
+
+def kernel_table(r, known, tier="thorough"):
+    """Emit Gen/SchemaFacts.lean and let the kernel close Properties/C12Table.lean within the budget."""
+    t0 = time.time()
+    dumps = {i: d for i, (info, d) in r["dumps"].items() if not i.endswith(".reloaded")}
+    pairs, excluded = [], []
+    for rel, s in r["ref_schema"].items():
+        if s in UNCLAIMED or s == "unsupported":
+            continue
+        for form in ("mem", "disk"):
+            c, rr = "c.%s.%s" % (s, form), "r." + rel
+            if c not in dumps or rr not in dumps:
+                continue
+            if any(k.get("schema") == s and k.get("ref") == rel for k in known):
+                excluded.append((c, rr))
+            else:
+                pairs.append((c, rr))
+    try:
+        stats = emit_facts(dumps, pairs, excluded)
+    except Exception as e:
+        return {"status": "failed", "why": "emitting the facts: %r" % (e,)}
+    try:
+        p = subprocess.run(["lake", "build", "Properties.C12Table"], cwd=LEAN, stdout=subprocess.PIPE, stderr=subprocess.STDOUT,
+                           text=True, timeout=KERNEL_BUDGET_S[tier])
+    except subprocess.TimeoutExpired:
+        subprocess.run(["pkill", "-f", "Properties/C12Table.lean"])
+        subprocess.run(["pkill", "-f", "Gen/SchemaFacts.lean"])
+        return dict(stats, status="skipped",
+                    why="the emitted facts differ from the last ones the kernel closed, and re-closing C12_table exceeded the %s-tier "
+                        "budget of %d s (reported, not silent; the compiled schemaEq decided every pair this run)" % (tier, KERNEL_BUDGET_S[tier]),
+                    wall_s=round(time.time() - t0, 1))
+    if p.returncode != 0:
+        return dict(stats, status="failed", why=p.stdout[-1500:], wall_s=round(time.time() - t0, 1))
+    import audit as auditmod
+    names = TABLE_THEOREMS
+    ax = auditmod.axioms_and_statements(names, imports=("Properties.C12Table",))
+    allowed = {"propext", "Classical.choice", "Quot.sound"}
+    bad = [n for n in names if ax[n].get("axioms") is None or not set(ax[n]["axioms"]) <= allowed]
+    lock = auditmod.load_lock("C12Table")      # written once: tools/props/C12.py lock-table
+    stale = [n for n in names if lock.get(n) != ax[n].get("stmt_sha")]
+    if bad or stale:
+        return dict(stats, status="failed", why="axioms / statement lock: %r %r" % (bad, stale), wall_s=round(time.time() - t0, 1))
+    return dict(stats, status="ok", wall_s=round(time.time() - t0, 1),
+                theorems={n: ax[n].get("axioms") for n in names})
+
+
 def tie(ctx):
     refs = ref_dirs()
     outs = collect(SCHEMAS, refs)
@@ -287,6 +515,13 @@ def tie(ctx):
     except (OSError, ValueError, KeyError):
         known = []
     ok = not [v for v in r["violations"] if v["signature"] not in known] and not r["divergences"]
+    if True:
+        kt = kernel_table(r, known, ctx.tier)
+        r["extra"]["kernel_table"] = kt
+        if kt["status"] == "failed":
+            ok = False
+            r["divergences"].append({"input": "Properties/C12Table.lean over Gen/SchemaFacts.lean", "impl": "(n/a)",
+                                     "model": "the kernel does not close C12_table: " + str(kt.get("why"))[-600:]})
     return {
         "ok": ok,
         "evaluations": r["evaluations"],
@@ -325,3 +560,8 @@ def replay(ctx, hdr, body):
     if not r["violations"] and not r["divergences"]:
         txt.append("no difference now")
     return (not r["violations"] and not r["divergences"]), "\n".join(txt)
+
+
+if __name__ == "__main__" and sys.argv[1:] == ["lock-table"]:
+    import audit as auditmod
+    print(auditmod.write_lock("C12Table", TABLE_THEOREMS, imports=("Properties.C12Table",)))
